@@ -426,6 +426,8 @@ def tracked_chains_are_tied_as_a_whole(ctx):
 
 def _array_of_param(v, params):
     """array(p) / asarray(p) / asarray(list(p)) of a parameter, without a dtype: keeps the (possibly integer) dtype of the input"""
+    if isinstance(v, ast.Call) and isinstance(v.func, ast.Attribute) and v.func.attr == 'astype' and _array_of_param(v.func.value, params):
+        return 'float'        # array(p).astype(...): widened where it is made
     if not (isinstance(v, ast.Call) and (v.func.id if isinstance(v.func, ast.Name) else getattr(v.func, 'attr', '')) in ('array', 'asarray') and v.args):
         return None
     a = v.args[0]
